@@ -14,6 +14,7 @@ import NV.Common.Proto
 import NV.C01.IndexOps
 import NV.C01.ErrBuf
 import NV.C01.Stack
+import NV.C01.Builders
 import NV.C01.Spec
 
 namespace NV.C01
@@ -101,6 +102,7 @@ def cmdEvents (lim : Limits) (scfg : StackCfg) (line : String) : List Ev × Bool
         | some (.ok out) => ([.result (resultLine k size r out.res)], true)
         | some (.error (.lpc m)) => ([.lpcError (trimNl m), .result "r !err"], true)
         | some (.error (.ub _)) => ([.ub "signed-overflow"], false)
+        | some (.error (.fatal m)) => ([.crash ("fatal " ++ m)], false)
         | none => ([.malformed line], true)
       | none =>
         -- non-container operands: handled by the type dispatch of the opcode, no index arithmetic
@@ -130,7 +132,17 @@ def cmdEvents (lim : Limits) (scfg : StackCfg) (line : String) : List Ev × Bool
       | _, _ => none)
     let s := String.ofList bytes
     ([.lpcError (trimNl s!"Bad argument 1 to allocate(), Expected: int Got: \"{s}\"."), .result "r badarg !err"], true)
+  | ["expl", mx, d, tl] =>
+    match mx.toInt?, d.toNat?, tl.toNat? with
+    | some mx, some d, some tl =>
+      match explodePieces mx d (tl != 0) with
+      | .ok out => ([.result s!"r expl size={out.alloc} filled={out.stores.eraseDups.length}"], true)
+      | .error (.fatal m) => ([.crash ("fatal " ++ m)], false)
+      | .error _ => ([.result "r expl !err"], true)
+    | _, _, _ => ([.malformed line], true)
   | "prog" :: _ => ([], true)
+  | "preload" :: _ => ([], true)          -- limit-edge family: load before the limits are lowered
+  | "cfglim" :: _ => ([], true)           -- limit-edge family: small configured limits (programs only)
   | ["run", name, fn] => ([.result s!"fz {name} {fn} done"], true)
   | "stackprog" :: d :: n :: rest =>
     match d.toNat?, n.toNat?, (rest.head?.getD "0").toNat? with
